@@ -566,6 +566,171 @@ C12Scope ==
 
 C12VlqScope == IF Scope # "c12vlq" THEN {} ELSE VlqBatches(1048576, 4096)
 
+-----------------------------------------------------------------------------
+(* CachedSource transparency (C10): call histories on a wrapper (r0), a     *)
+(* clone of it (r2) and a parent containing it (r3); the wrapped tree stays *)
+(* uncached in r1 (and in the parent's counterpart r4)                      *)
+C10Inners ==
+  {Orig(<<cA, cSC, NL, cA>>), SmsA,
+   CC(<<Orig(<<cA>>), Raw("str", <<cB, NL>>), SmsB>>),
+   Replace(Orig(<<cA, cA, cSC, NL, cA>>), <<Repl(1, 2, <<cX, NL>>)>>),
+   Raw("str", <<cA, cB, NL>>),
+   Cached(Orig(<<cA, NL, cB>>))}
+
+ObsOn(op, r) == [op |-> op, r |-> r]
+StreamOn(r, c) == [op |-> "stream", r |-> r, columns |-> c, final |-> FALSE]
+MapOn(r, c) == [op |-> "map", r |-> r, columns |-> c]
+HashOn(r) == [op |-> "hash", r |-> r, h |-> "twox"]
+
+C10Calls ==
+  {ObsOn("source", 0), ObsOn("buffer", 0), ObsOn("size", 0), HashOn(0), HashOn(2)}
+  \cup {MapOn(r, c) : r \in {0, 2, 3}, c \in BOOLEAN}
+  \cup {StreamOn(r, c) : r \in {0, 2}, c \in BOOLEAN}
+
+C10Prefix(x) ==
+  <<[op |-> "build", dst |-> 1, tree |-> x],
+    ObsOn("source", 1), StreamOn(1, TRUE), StreamOn(1, FALSE), MapOn(1, TRUE), MapOn(1, FALSE),
+    [op |-> "build", dst |-> 4, tree |-> CC(<<x, Raw("str", <<cX>>)>>)],
+    ObsOn("source", 4), MapOn(4, TRUE), MapOn(4, FALSE),
+    [op |-> "build", dst |-> 0, tree |-> [k |-> "cached", cid |-> 7, inner |-> x]],
+    [op |-> "clone", dst |-> 2, src |-> 0],
+    [op |-> "build", dst |-> 3, tree |-> CC(<<[k |-> "reg", r |-> 0], Raw("str", <<cX>>)>>)],
+    [op |-> "law", law |-> "ref", cached |-> <<0, 2>>, pure |-> 1],
+    [op |-> "law", law |-> "ref", cached |-> <<3>>, pure |-> 4]>>
+
+C10Final ==
+  <<ObsOn("source", 2), StreamOn(2, TRUE), StreamOn(0, FALSE), MapOn(0, TRUE), MapOn(2, FALSE),
+    MapOn(3, TRUE), MapOn(3, FALSE), HashOn(0)>>
+
+C10Scope ==
+  IF Scope \notin {"c10", "c10full"} THEN {} ELSE
+  LET n == IF Scope = "c10" THEN 2 ELSE 3
+      xs == IF Scope = "c10" THEN C10Inners
+            ELSE {Orig(<<cA, cSC, NL, cA>>), SmsA,
+                  CC(<<Orig(<<cA>>), Raw("str", <<cB, NL>>), SmsB>>)}
+  IN UNION {{Prog(C10Prefix(x) \o h \o C10Final) : h \in UNION {[1..k -> C10Calls] : k \in 0..n}} :
+              x \in xs}
+     \cup (IF Scope = "c10"
+            THEN UNION {{Prog(C10Prefix(x) \o h \o C10Final) : h \in [1..3 -> C10Calls]} :
+                         x \in {CC(<<Orig(<<cA>>), Raw("str", <<cB, NL>>), SmsB>>)}}
+            ELSE {})
+
+-----------------------------------------------------------------------------
+(* identity (C14) and hashing (C20): base trees of every kind and all trees *)
+(* one edit away                                                            *)
+ReplNm(s, e, c, n, enf) == [s |-> s, e |-> e, c |-> c, n |-> n, enf |-> enf, api |-> "replace_enf"]
+SmsInner ==
+  [k |-> "sms", b |-> <<cA, cB>>, name |-> InnerName,
+   map |-> [m |-> EncodeSegs(<<Seg(1, 0, <<0, 1, 0, -1>>), Seg(1, 1, <<1, 1, 0, -1>>)>>),
+            sources |-> <<InnerName, FileA>>, contents |-> <<<<>>, ContentA>>,
+            names |-> <<Name1>>, root |-> <<>>, file |-> <<>>, dbg |-> <<>>],
+   inner |-> <<[m |-> EncodeSegs(<<Seg(1, 0, <<0, 1, 1, 0>>)>>), sources |-> <<FileB>>,
+               contents |-> <<ContentB>>, names |-> <<Name0>>,
+               root |-> <<>>, file |-> <<>>, dbg |-> <<>>]>>,
+   osrc |-> <<InnerX>>, remove |-> FALSE]
+
+BaseTrees ==
+  {Raw("str", <<cA, cB>>), Raw("buf", <<cA, cB>>), Raw("rawstr", <<cA, cB>>),
+   Raw("rawbuf", <<cA, cB>>), Raw("rawbuf", <<255, cA>>), Orig(<<cA, cSC, NL, cB>>), SmsA, SmsInner,
+   CC(<<Orig(<<cA>>), Raw("str", <<cB>>), SmsB>>),
+   Replace(Orig(<<cA, cA, cSC, NL, cA>>),
+           <<ReplNm(1, 2, <<cX>>, <<NameRn>>, 1), ReplNm(3, 3, <<cX, NL>>, <<>>, 1)>>),
+   Cached(CC(<<Orig(<<cA, NL>>), Raw("str", <<cB>>)>>)),
+   Box(Orig(<<cA, cB>>)),
+   CC(<<Replace(Orig(<<cA, cB, cA>>), <<ReplNm(1, 1, <<cX>>, <<>>, 0), ReplNm(1, 1, <<cB>>, <<>>, 2)>>),
+        Cached(Orig(<<cA, NL, cB>>))>>),
+   Replace(CC(<<Orig(<<cA, cB>>), Raw("rawstr", <<cA>>)>>), <<ReplNm(1, 3, <<>>, <<>>, 1)>>)}
+
+TextEdits(b) == {b \o <<cX>>, <<cX>> \o b} \cup (IF b = <<>> THEN {} ELSE {Take(b, Len(b) - 1)})
+SubKinds == {"str", "buf", "rawstr", "rawbuf"}
+
+MapEdits(m) ==
+  {[m EXCEPT !.m = @ \o <<SEMI>> \o EncodeSegs(<<Seg(1, 0, <<0, 1, 0, -1>>)>>)],
+   [m EXCEPT !.m = <<>>],
+   [m EXCEPT !.sources = [i \in 1..Len(@) |-> IF i = 1 THEN @[i] \o <<cX>> ELSE @[i]]],
+   [m EXCEPT !.sources = Append(@, FileB)],
+   [m EXCEPT !.contents = IF @ = <<>> THEN <<<<cX>>>> ELSE [i \in 1..Len(@) |-> IF i = 1 THEN @[i] \o <<cX>> ELSE @[i]]],
+   [m EXCEPT !.names = Append(@, NameRn)],
+   [m EXCEPT !.root = <<<<114>>>>],
+   [m EXCEPT !.file = <<<<cX, 46, 106, 115>>>>],
+   [m EXCEPT !.dbg = <<<<100, 49>>>>]}
+
+MaxN(a, b) == IF a > b THEN a ELSE b
+
+RECURSIVE Edits(_)
+Edits(t) ==
+  CASE t.k = "raw" ->
+         {[t EXCEPT !.b = e] : e \in TextEdits(t.b)}
+         \cup {[t EXCEPT !.sub = x] : x \in SubKinds \ {t.sub}}
+    [] t.k = "orig" ->
+         {[t EXCEPT !.b = e] : e \in TextEdits(t.b)}
+         \cup {[t EXCEPT !.name = @ \o <<cX>>]}
+    [] t.k = "sms" ->
+         {[t EXCEPT !.b = e] : e \in TextEdits(t.b)}
+         \cup {[t EXCEPT !.map = e] : e \in MapEdits(t.map)}
+         \cup (IF t.inner = <<>> THEN {}
+               ELSE {[t EXCEPT !.inner = <<e>>] : e \in MapEdits(t.inner[1])}
+                    \cup {[t EXCEPT !.osrc = <<@[1] \o <<cX>>>>],
+                          [t EXCEPT !.remove = ~@]})
+    [] t.k = "concat" ->
+         {[t EXCEPT !.ch = RemoveAt(@, i)] : i \in 1..Len(t.ch)}
+         \cup {[t EXCEPT !.ch = Append(@, Raw("str", <<cX>>))], [t EXCEPT !.ch = Reverse(@)]}
+         \cup UNION {{[t EXCEPT !.ch[i] = e] : e \in Edits(t.ch[i])} : i \in 1..Len(t.ch)}
+    [] t.k = "replace" ->
+         UNION {{[t EXCEPT !.repls[i].s = @ + 1, !.repls[i].e = MaxN(t.repls[i].e, t.repls[i].s + 1)],
+                 [t EXCEPT !.repls[i].e = @ + 1],
+                 [t EXCEPT !.repls[i].c = @ \o <<cX>>],
+                 [t EXCEPT !.repls[i].n = IF @ = <<>> THEN <<Name0>> ELSE <<>>],
+                 [t EXCEPT !.repls[i].enf = (@ + 1) % 3]} : i \in 1..Len(t.repls)}
+         \cup {[t EXCEPT !.repls = RemoveAt(@, i)] : i \in 1..Len(t.repls)}
+         \cup {[t EXCEPT !.repls = Append(@, ReplNm(0, 0, <<cX>>, <<>>, 1))],
+               [t EXCEPT !.repls = Reverse(@)]}
+         \cup {[t EXCEPT !.inner = e] : e \in Edits(t.inner)}
+    [] t.k \in {"cached", "box"} -> {[t EXCEPT !.inner = e] : e \in Edits(t.inner)}
+    [] OTHER -> {}
+
+ObsPair(r) ==
+  <<ObsOn("source", r), ObsOn("buffer", r), MapOn(r, TRUE), MapOn(r, FALSE), HashOn(r)>>
+EqStep(a, b) == [op |-> "eq", a |-> a, b |-> b]
+
+EditPairProg(t, e) ==
+  Prog(<<[op |-> "build", dst |-> 0, tree |-> t], [op |-> "build", dst |-> 1, tree |-> e]>>
+       \o ObsPair(0) \o ObsPair(1)
+       \o <<EqStep(0, 1), EqStep(1, 0), [op |-> "law", law |-> "edit_pair", a |-> 0, b |-> 1],
+            [op |-> "hash_tree", tree |-> t]>>)
+
+C20Scope ==
+  IF Scope # "c20" THEN {} ELSE
+  UNION {{EditPairProg(t, e) : e \in Edits(t) \ {t}} : t \in BaseTrees}
+  \cup {EditPairProg(p[1], p[2]) : p \in {q \in BaseTrees \X BaseTrees : q[1] # q[2]}}
+
+C14Obs ==
+  {<<ObsOn("source", 0)>>, <<MapOn(0, TRUE)>>, <<MapOn(0, FALSE)>>, <<StreamOn(0, TRUE)>>,
+   <<HashOn(0)>>, <<ObsOn("size", 0)>>, <<ObsOn("buffer", 0)>>, <<ObsOn("rope", 0)>>,
+   <<[op |-> "clone", dst |-> 3, src |-> 0], ObsOn("source", 3)>>}
+
+C14Same(t, o1, o2) ==
+  Prog(<<[op |-> "build", dst |-> 0, tree |-> t], [op |-> "build", dst |-> 1, tree |-> t],
+         EqStep(0, 1), EqStep(1, 0), HashOn(0), HashOn(1)>>
+       \o o1 \o <<EqStep(0, 1)>> \o o2 \o <<EqStep(0, 1), EqStep(1, 0), HashOn(0)>>
+       \o <<[op |-> "clone", dst |-> 2, src |-> 0], EqStep(0, 2), EqStep(2, 1), HashOn(2),
+            ObsOn("source", 0), ObsOn("source", 2), ObsOn("source", 1),
+            MapOn(0, TRUE), MapOn(2, TRUE), MapOn(1, TRUE), MapOn(0, TRUE),
+            StreamOn(0, TRUE), StreamOn(0, TRUE), ObsOn("size", 0), ObsOn("size", 0),
+            EqStep(0, 2), EqStep(0, 1)>>)
+
+C14Differ(t, e, o1) ==
+  Prog(<<[op |-> "build", dst |-> 0, tree |-> t], [op |-> "build", dst |-> 1, tree |-> e],
+         EqStep(0, 1), EqStep(1, 0)>> \o o1
+       \o <<EqStep(0, 1), EqStep(1, 0), HashOn(0), HashOn(1), ObsOn("source", 0),
+            ObsOn("source", 1), MapOn(0, TRUE), MapOn(1, TRUE), EqStep(0, 1)>>)
+
+C14Scope ==
+  IF Scope # "c14" THEN {} ELSE
+  {C14Same(t, o1, o2) : t \in BaseTrees, o1 \in C14Obs, o2 \in C14Obs}
+  \cup UNION {{C14Differ(t, e, o1) : e \in Edits(t) \ {t}, o1 \in {<<>>, <<ObsOn("source", 0)>>, <<HashOn(0)>>}} :
+               t \in BaseTrees}
+
 (* size of buffer() is not known to the generator; writers are placed at    *)
 (* every budget up to a bound that covers these small trees                 *)
 ProgSet ==
@@ -576,6 +741,9 @@ ProgSet ==
     [] Scope = "c06r" -> C06RScope
     [] Scope = "c08" -> C08Scope
     [] Scope = "c12" -> C12Scope
+    [] Scope = "c14" -> C14Scope
+    [] Scope = "c20" -> C20Scope
+    [] Scope \in {"c10", "c10full"} -> C10Scope
     [] Scope = "c12vlq" -> C12VlqScope
     [] Scope \in {"c09", "c09full"} -> C09Scope
     [] Scope = "c07" -> {Prog(<<Build(t)>> \o ViewObs(9)) : t \in ViewTrees}
